@@ -2,7 +2,7 @@
    Statements + `exact` + Print Assumptions only.  Patterns: alternation {a,b} (nested too), then segments separated by '/', each
    made of literal bytes, '*', '?' and character classes [..], [!..], [^..] with ranges, or the segment "**".  Outside: backslash
    escapes (a segment containing one matches nothing in the model) and empty segments. *)
-From Spok Require Import Base Glob GlobProofs.
+From Spok Require Import Base Glob GlobProofs Lexer Parser Vars Load LoadProofs.
 
 (* For every well-formed directory tree (no name listed twice in a directory) and every non-empty pattern of the
    fragment, the model of doublestar's GlobWalk driven by spok's callback reports an entry iff the reference matcher
@@ -24,6 +24,19 @@ Print Assumptions C05_pattern.
 Theorem C05_pattern_same_as_full_walk : forall root p, wf root -> forall x, In x (expand_pat root p) <-> In x (glob_spec_pat root p).
 Proof. exact expand_pat_exact. Qed.
 Print Assumptions C05_pattern_same_as_full_walk.
+
+(* which strings are patterns at all (task.New): a dependency string containing '*' is kept as a pattern of the task, every one
+   of them; a string without '*' is a file below the spokfile's directory, whatever other characters it contains *)
+Theorem C05_patterns_recognised : forall root vs doc name deps outs cmds t s,
+  load_task root vs doc name deps outs cmds = Some t -> In (AString s) deps ->
+  (is_glob s = true -> In s (lt_globdeps t)) /\
+  (is_glob s = false -> In (Paths.join [root; s]) (lt_filedeps t) /\ ~ In s (lt_globdeps t)).
+Proof.
+  exact (fun root vs doc name deps outs cmds t s H Hin =>
+           conj (every_pattern_is_kept root vs doc name deps outs cmds t s H Hin)
+                (string_without_star_is_a_file root vs doc name deps outs cmds t s H Hin)).
+Qed.
+Print Assumptions C05_patterns_recognised.
 
 (* the same, against the executable specification "filter a full walk of the tree with the reference matcher" *)
 Theorem C05_same_as_full_walk : forall root pat, wf root -> pat <> [] ->
